@@ -883,6 +883,11 @@ func (s *Slice) TryFuse(node *NodeInfo, err error) {
 	if !node.FuseStrategy.Trigger(now.Unix()) {
 		return
 	}
+	// record the fuse time before the node becomes visible as DOWN: a health check that
+	// runs in between must already see the cool-down it has to respect
+	if hard, ok := node.RecoveryStrategy.(*HardCoolDownStrategy); ok {
+		hard.UpdateFuseTime(now.Unix())
+	}
 	// 熔断后下线节点
 	changed := node.SetStatusDown()
 	log.Warn("[ns=%s][addr=%s] Triggered fuse, node marked as DOWN at %s", s.Namespace, node.Address, now.Format(mysql.TimeFormat))
